@@ -304,6 +304,15 @@ pub fn syntax_exprs(in_filter: bool) -> Vec<Expr> {
     let red: Vec<Expr> = atoms_v.iter().step_by(23).cloned().chain(exists_forms(in_filter).into_iter().take(2)).collect();
     let mut out = atoms_v.clone();
     out.extend(compounds(&red));
+    // four-operand chains: a && b && c && d must stay left-nested
+    if red.len() >= 4 {
+        for s in 0..red.len().min(6) {
+            let g = |k: usize| Box::new(red[(s + k) % red.len()].clone());
+            out.push(Expr::And(Box::new(Expr::And(Box::new(Expr::And(g(0), g(1))), g(2))), g(3)));
+            out.push(Expr::Or(Box::new(Expr::Or(Box::new(Expr::Or(g(0), g(1))), g(2))), g(3)));
+            out.push(Expr::Or(Box::new(Expr::Or(Box::new(Expr::Or(Box::new(Expr::Or(g(0), g(1))), g(2))), g(3))), g(4)));
+        }
+    }
     // three-way chains (left associativity)
     for a in red.iter().take(3) {
         for b in red.iter().skip(1).take(3) {
